@@ -144,8 +144,9 @@ def rg_cases(rng, tier):
         todo.append((shape, axes, shifts, rng.random() < 0.5, rng.random() < 0.2))
     for shape, axes, shifts, hc, wrong in todo:
         grid = _rand_grid(rng, shape)
+        ax_arg = None if (axes == list(range(len(shape))) and rng.random() < 0.5) else axes
         try:
-            rg = reciprocal_grid(grid, shift=shifts, axes=axes, halfcomplex=hc)
+            rg = reciprocal_grid(grid, shift=shifts, axes=ax_arg, halfcomplex=hc)
         except Exception:
             cs.add('{| g_grid := %s; g_axes := %s; g_shifts := %s; g_hc := %s; g_out := []; g_x0 := []; '
                    'g_par := None; g_back := None |}' % (axqs(grid), nats(axes), bools(shifts), C.b(hc)),
@@ -160,7 +161,7 @@ def rg_cases(rng, tier):
         try:
             with warnings.catch_warnings():
                 warnings.simplefilter('ignore')
-                back = realspace_grid(rg, x0, axes=axes, halfcomplex=hc, halfcx_parity=par)
+                back = realspace_grid(rg, x0, axes=ax_arg, halfcomplex=hc, halfcx_parity=par)
             back_t = '(Some %s)' % axqs(back)
         except ValueError:
             back_t = 'None'
@@ -343,6 +344,35 @@ def ft_cases(rng, tier):
     return cs
 
 
+def fac_cases(rng, tier):
+    """dft_preprocess_data / dft_postprocess_data called directly (1-d arrays of ones)."""
+    import odl
+    from odl.trafos.util import reciprocal_grid, dft_preprocess_data, dft_postprocess_data
+    cs = C.CaseSet('fac', ['C18.Model', 'C18.Corr'], 'check_fac', 'case_fac')
+    for n, sh, half, sg, div, lin in itertools.product(range(2, 8 if tier == 'quick' else 12), [True, False],
+                                                       [False, True], ['-', '+'], [False, True], [False, True]):
+        x0 = rng.choice(DY_MIN)
+        st = rng.choice(DY_STRIDE)
+        grid = odl.uniform_grid(x0, x0 + (n - 1) * st, n)
+        rgrid = reciprocal_grid(grid, shift=sh, halfcomplex=half)
+        dt = rng.choice(['float64', 'complex128', 'int64'])
+        with warnings.catch_warnings():
+            warnings.simplefilter('ignore')
+            pre = dft_preprocess_data(np.ones(n, dtype=dt), shift=sh, sign=sg,
+                                      axes=rng.choice([None, 0]))
+            post = dft_postprocess_data(np.ones(rgrid.shape, dtype=rng.choice(['complex128', 'float64'])),
+                                        real_grid=grid, recip_grid=rgrid, shift=[sh], axes=rng.choice([None, (0,)]),
+                                        interp='linear' if lin else 'nearest', sign=sg,
+                                        op='divide' if div else 'multiply')
+        term = ('{| p_ax := %s; p_sh := %s; p_half := %s; p_sg := %s; p_div := %s; p_lin := %s; p_pre := %s; '
+                'p_post := %s |}' % (axq(grid.min_pt[0], grid.max_pt[0], n), C.b(sh), C.b(half),
+                                     C.z(-1 if sg == '-' else 1), C.b(div), C.b(lin), cqs(pre), cqs(post)))
+        cs.add(term, {'n': n, 'shift': sh, 'halfcomplex': half, 'sign': sg, 'op': 'divide' if div else 'multiply',
+                      'interp': 'linear' if lin else 'nearest', 'x0': x0, 'stride': st, 'dtype': dt},
+               (n, sh, half, sg, div, lin, x0, st))
+    return cs
+
+
 def cis_cases(rng, tier):
     cs = C.CaseSet('cis', ['C18.CisQ', 'C18.Corr'], 'check_cis', 'case_cis')
     for _ in range(200 if tier == 'quick' else 1500):
@@ -439,7 +469,7 @@ def wavelet_cases(rng, tier):
 
 def correspondence(rng, tier):
     C.setup_impl_path()
-    return [rg_cases(rng, tier), cis_cases(rng, tier), dft_cases(rng, tier), ft_cases(rng, tier)] \
+    return [rg_cases(rng, tier), fac_cases(rng, tier), cis_cases(rng, tier), dft_cases(rng, tier), ft_cases(rng, tier)] \
         + wavelet_cases(rng, tier)
 
 
@@ -698,6 +728,17 @@ def ft_probes(rng, tier, out):
                    head + "xe = dom.element(x.copy())\ntry:\n    y = ft(xe); y0 = np.asarray(y).copy(); ft.inverse(y)\n"
                    "    ok = bool(np.array_equal(np.asarray(xe), x) and np.array_equal(np.asarray(y), y0))\n"
                    "except Exception:\n    ok = bool(np.array_equal(np.asarray(xe), x))\n")
+            # the inverse of the inverse is the transform again; temporaries/plan on the inverse operator
+            _probe(out, key if (key.startswith('ft-half') or key.startswith('ft-real-unsh')) else
+                   'ft-inverse-inverse-%s-%s%s%s' % (impl, kind, '-hc' if hc else '', '-unshifted' if unsh else ''),
+                   'ft.inverse.inverse(x) == ft(x); ft.inverse with temporaries/plan gives the same values: ' + cfg,
+                   head + "y0 = np.asarray(ft(x.copy())).copy()\ninv = ft.inverse\n"
+                   "y1 = np.asarray(inv.inverse(x.copy())).copy()\n"
+                   "z0 = np.asarray(inv(y0.copy())).copy()\ninv.create_temporaries()\n"
+                   "if inv.impl == 'pyfftw': inv.init_fftw_plan()\n"
+                   "z1 = np.asarray(inv(y0.copy())).copy(); inv.clear_temporaries(); z2 = np.asarray(inv(y0.copy())).copy()\n"
+                   "observed = float(max(np.abs(y1 - y0).max(), np.abs(z1 - z0).max(), np.abs(z2 - z0).max())); expected = 0.0\n"
+                   "ok = observed <= %r * (1 + np.abs(y0).max())\n" % (10 * _tolf(dt)))
             # temporaries and a cached plan do not change the values
             _probe(out, key if key.startswith('ft-half') else
                    'ft-temporaries-%s-%s%s%s' % (impl, kind, '-hc' if hc else '', '-unshifted' if unsh else ''),
@@ -769,6 +810,13 @@ def wavelet_probes(rng, tier, out):
                    else 'wavelet-reconstruction-%s' % pm,
                    'W.inverse(W(x)) == x for %s, nlevels=%d, pad_mode=%s, shape=%s, axes=%s' % (name, L, pm, shape, axes),
                    snippet)
+    # non-orthogonal wavelets: no adjoint is returned (NotImplementedError), never a wrong one
+    for name in [n for n in names if not pywt.Wavelet(n).orthogonal][:6 if tier == 'quick' else None]:
+        snippet = (_PRE + "sp = odl.uniform_discr(0, 1, 8)\nW = odl.trafos.WaveletTransform(sp, %r, nlevels=1, pad_mode='pywt_periodic')\n"
+                   "try:\n    W.adjoint; ok = False\nexcept NotImplementedError:\n    ok = True\n"
+                   "try:\n    W.inverse.adjoint; ok = False\nexcept NotImplementedError:\n    pass\n" % name)
+        _probe(out, 'wavelet-adjoint-nonorthogonal-not-implemented',
+               'WaveletTransform(%s).adjoint raises NotImplementedError (biorthogonal wavelet)' % name, snippet)
     # adjoint identity: orthogonal wavelets, periodic extension
     orth = [n for n in names if pywt.Wavelet(n).orthogonal]
     for name in (orth if tier != 'quick' else ['haar', 'db2', 'db4', 'sym3', 'coif1'] + rng.sample(orth, 6)):
